@@ -535,6 +535,19 @@ fn jobs_for(prop: &str, tier: &str) -> (Vec<(Job, usize)>, usize) {
                     }
                 }
                 jobs.push((Job::AlUnion(crate::props::gens::closed_form("cycle", 4), crate::props::gens::closed_form("star", 3)), w));
+                // larger orders for the routines whose workers only meet at spawn / join (few
+                // scheduling points whatever the order): several rows or blocks of rows per
+                // worker, ragged last chunk, order below / above multiples of 8 and 16
+                for n in [9usize, 17, 20, 33] {
+                    let p = crate::props::gens::closed_form("path", n);
+                    let c = crate::props::gens::closed_form("cycle", n);
+                    let st = crate::props::gens::closed_form("star", n - 2);
+                    jobs.push((Job::AlUnion(p.clone(), c.clone()), w));
+                    jobs.push((Job::AlUnion(st, p.clone()), w));
+                    jobs.push((Job::AlComplement(c), w));
+                    jobs.push((Job::AlDegreeSequence(p), w));
+                    jobs.push((Job::AlComplete(n), w));
+                }
                 for seed in [0u64, 7] {
                     jobs.push((Job::AmRandomTournament(4, seed), w));
                     jobs.push((Job::AmErdosRenyi(4, 0.3, seed), w));
